@@ -8,3 +8,4 @@ import Scfg.Props.C14
 import Scfg.Props.C18
 import Scfg.Props.C13
 import Scfg.Props.C16
+import Scfg.Props.C09
